@@ -40,7 +40,7 @@ CLAIMED = {
  "C15": ("trace monitor with injected panics (value kinds x sites x phases) over request sequences, in the three environments sequentially",
          "For every generated chain, site, phase and panic value nothing escapes ServeHTTP, the status is 500 iff nothing had been sent, detail appears only in development, middleware before Recovery completes, and healthy follow-up requests equal their baseline. Exploration.",
          "Panics are raised after Recovery in the chain; the environment is process-global so phases are sequential.", "DESIGN.md §5 C15"),
- "C16": ("outcome-function monitor over a fixture tree with unique content per file, universal outside-marker predicate, faulty http.FileSystem injection",
+ "C16": ("outcome-function monitor over a fixture tree with unique content per file, universal outside-marker predicate, faulty http.FileSystem injection, supervised bursts of simultaneous directory requests (a request that never returns is a violation)",
          "For every generated (option set, method, path) the response is what an independent outcome function over the on-disk fixture predicts, never contains bytes of a file outside the directory, and a non-served request leaves no trace and lets the chain continue. Exploration.",
          "No symlinks, no Range requests; paths with NUL/backslash judged by the safety predicates only.", "DESIGN.md §5 C16"),
  "C17": ("decode-back monitor: recorded status / Content-Type / body decoded with encoding/json and encoding/xml",
@@ -52,7 +52,7 @@ CLAIMED = {
  "C04": ("reference-model monitor with acceptable-value sets over the harness's own registration table; reflective path vs hand-written FastInvoker wrappers vs built-in wrappings; real application/request scopes",
          "For every generated registration history, scope nesting and signature each argument is a value the nearest-scope rule allows, unresolved parameters give an error naming the type without running the body, results come back unchanged, and request-scoped values are gone in the next request. Exploration.",
          "Where several implementors are registered in one scope any of them is accepted (the implementation iterates a map). reflect.Type.Implements is trusted.", "DESIGN.md §5 C04"),
- "C05": ("Go race detector (happens-before) over cold instances under a concurrent stress workload, plus serial-twin equality and token-isolation monitors",
+ "C05": ("Go race detector (happens-before) over cold instances under a concurrent stress workload, plus serial-twin equality and token-isolation monitors; a runtime fault (fatal error: concurrent map writes ...) that ends the instrumented process inside the framework is a violation with the running round as witness",
          "No race report with a framework frame in any explored execution; every concurrent response equals the response of the same request served alone on an identical instance and contains no other request's token. Exploration: the schedules actually produced (max in-flight and overlap counts are in the evidence).",
          "The race detector only sees accesses that occur and keeps a bounded shadow history; schedule-dependent logic errors without a data race are found only if the injected yields produce the schedule.", "DESIGN.md §5 C05"),
  "C07": ("totality monitor: recover() around ServeHTTP, chain counter, reference model for the chosen chain, repeat-and-rebuild equality",
@@ -103,7 +103,7 @@ def main():
         }],
         "checks": checks,
         "not_applicable": na,
-        "notes": "Runtime monitoring only. exit 0 held / 1 VIOLATION / 2 INCONCLUSIVE (coverage gate missed, watchdog, build failure). Known findings: /verif/known_findings.txt (all current entries are fixed: lines, re-run as regression witnesses).",
+        "notes": "Runtime monitoring only. exit 0 held / 1 VIOLATION / 2 INCONCLUSIVE (coverage gate missed, watchdog, build failure). The thorough tier of every check except C05 first runs the property's quick workload on a GOARCH=386 build of harness and library (DESIGN.md 2.2a). Known findings: /verif/known_findings.txt (all current entries are fixed: lines, re-run as regression witnesses).",
     }
     json.dump(m, open(os.path.join(root, "MANIFEST.json"), "w"), indent=1)
     print("claimed:", [c["property_id"] for c in checks], "not_applicable:", [n["property_id"] for n in na])
